@@ -28,6 +28,13 @@ NOT_APPLICABLE = {
 }
 
 CHECKS = {
+    "C03": dict(
+        engine="clocksim",
+        technique="deterministic simulation: discrete-event chain clock whose events are the lock thresholds (+-1), extremes, independent height/time advance and reorgs moving coin confirmation points; the real parse path runs once and the real check_time_locks at every simulated chain state, compared with an independent per-assertion evaluator; a constructed witness state decides 'rejected as impossible only if unsatisfiable'",
+        text="Seeded search over bundles x clock/reorg event sequences. Every visited chain state compares (parse accepted AND check_time_locks Ok) with an independent per-assertion evaluator (saturating sums, ephemeral rule); a satisfying witness state is constructed and visited whenever one exists, so a satisfiable bundle rejected at parse time is reported. Exploration level: sampling (2 M bundles / ~45 M chain states quick, 200 M bundles thorough). Weakest fit of the claimed properties for this technique: the code under test is two pure functions; what the simulator contributes is the clock, the coin-store history and jump-to-next-threshold exploration.",
+        design_ref="DESIGN.md section 3, C03",
+        note="Trusted: the harness's reference evaluator (written from the arithmetic definitions) and its integer classification. Only nowrap=true. Chain states are arbitrary, not only reachable ones. Cost limit ample; signatures not validated.",
+    ),
     "C18": dict(
         engine="histsim",
         technique="deterministic simulation: seeded operation histories with injected failing operations and restarts (volatile index dropped, only blob bytes survive, in memory and through the real file path), stepped against a plain-map reference model with independent root/proof recomputation; minimised replay files",
@@ -75,7 +82,6 @@ def main():
             "technique": c["technique"],
         })
     pending = {
-        "C03": "claimed in DESIGN.md (clocksim); check not built yet in this commit",
         "C05": "claimed in DESIGN.md (schedsim); check not built yet in this commit",
         "C10": "claimed in DESIGN.md (histsim); check not built yet in this commit",
         "C15": "claimed in DESIGN.md (schedsim); check not built yet in this commit",
